@@ -78,6 +78,23 @@ func propC17(run *Run, n int) {
 	for _, dw := range v1RenderSpecials {
 		addV1RenderCase(run, "special", dw)
 	}
+	// long lines through the v1 text leg (Render, ReadDiffString): a value whose JSON text is just below / at / above
+	// 64 KiB (the default token limit of bufio.Scanner), followed by a second hunk
+	for _, size := range []int{65531, 65536, 70000} {
+		long := VStr(strings.Repeat("x", size))
+		for _, ch := range choices {
+			if !ch.inDomain || ch.m.Has("P") {
+				continue
+			}
+			a, b := VObj("a", VStr("short"), "b", VNum(1)), VObj("a", long, "b", VNum(2))
+			if size == 65536 {
+				a, b = VObj("a", VArr(long, VNum(1)), "b", VNum(1)), VObj("a", VArr(long, VNum(2)), "b", VNum(2))
+			}
+			run.Count("long-line")
+			addC17Case(run, ch.m, ch.label+"-long-line", true, a, b)
+			break
+		}
+	}
 	for i := 0; i < n; i++ {
 		ch := choices[r.Intn(len(choices))]
 		cfg := ch.cfg()
